@@ -116,11 +116,14 @@ _LINE_RE = re.compile(r"^(?P<file>.*?):(?P<line>\d+): (?P<level>info|error|warni
 _CALL_RE = re.compile(r"when calling (?P<call>.*?)(?: \(which (?:returns|raises) .*\))?$", re.S)
 
 
-def parse_output(name: str, text: str) -> Verdict:
+def parse_output(name: str, text: str, only_file: str | None = None) -> Verdict:
+    """verdict from crosshair's stdout; with `only_file` just the lines reported for that file are considered"""
     status, msg, call = None, "", None
     for ln in text.splitlines():
         m = _LINE_RE.match(ln.strip())
         if not m:
+            continue
+        if only_file is not None and os.path.basename(m.group("file")) != os.path.basename(only_file):
             continue
         level, body = m.group("level"), m.group("msg")
         if level == "error":
@@ -139,35 +142,58 @@ def parse_output(name: str, text: str) -> Verdict:
     return Verdict(name, status, msg, call, raw=text)
 
 
-def run_one(cond: Cond, timeout: float, extra_path=(), extra_args=()) -> Verdict:
+def run_group(conds: list[Cond], timeout: float, extra_path=(), extra_args=()) -> list[Verdict]:
+    """one crosshair process for several conditions that live in *different* files (e.g. a harness and its
+    reachability twin): saves the interpreter/halmos start-up; verdicts are told apart by the reported file name"""
+    assert len({os.path.basename(c.file) for c in conds}) == len(conds)
     cmd = [CROSSHAIR, "check", "--report_all", "--per_condition_timeout", str(int(timeout)), *extra_args,
-           f"{cond.file}:{cond.line}"]
+           *[f"{c.file}:{c.line}" for c in conds]]
     t0 = time.time()
+    wall = timeout * len(conds) + 90
+    dirs = []
+    for c in conds:
+        if os.path.dirname(c.file) not in dirs:
+            dirs.append(os.path.dirname(c.file))
     try:
-        p = subprocess.run(cmd, capture_output=True, text=True, timeout=timeout + 90,
-                           env=child_env([os.path.dirname(cond.file), *extra_path]), cwd=os.path.dirname(cond.file))
-        v = parse_output(cond.name, p.stdout + "\n" + p.stderr)
+        p = subprocess.run(cmd, capture_output=True, text=True, timeout=wall, env=child_env([*dirs, *extra_path]),
+                           cwd=dirs[0])
+        text = p.stdout + "\n" + p.stderr
+        vs = [parse_output(c.name, text, c.file if len(conds) > 1 else None) for c in conds]
     except subprocess.TimeoutExpired:
-        v = Verdict(cond.name, "timeout", f"crosshair did not return within {timeout + 90:.0f}s")
-    v.elapsed = round(time.time() - t0, 1)
-    v.twin = cond.twin
-    return v
+        vs = [Verdict(c.name, "timeout", f"crosshair did not return within {wall:.0f}s") for c in conds]
+    for c, v in zip(conds, vs):
+        v.elapsed = round(time.time() - t0, 1)
+        v.twin = c.twin
+    return vs
 
 
-def run_many(conds: list[Cond], timeout: float, jobs: int = 14, extra_path=(), progress=None) -> list[Verdict]:
-    """run the conditions as parallel subprocesses; result order = input order"""
-    out: list = [None] * len(conds)
+def run_one(cond: Cond, timeout: float, extra_path=(), extra_args=()) -> Verdict:
+    return run_group([cond], timeout, extra_path, extra_args)[0]
+
+
+def run_many(groups: list, timeout: float, jobs: int = 14, extra_path=(), progress=None) -> list:
+    """run conditions (or groups = lists of conditions in different files) as parallel subprocesses.
+    Returns verdicts in input order (a list per group when the item was a group)."""
+    out: list = [None] * len(groups)
+
+    def job(item):
+        if isinstance(item, Cond):
+            return run_one(item, item.timeout or timeout, extra_path)
+        return run_group(item, max(c.timeout or timeout for c in item), extra_path)
+
     with cf.ThreadPoolExecutor(max_workers=max(1, jobs)) as ex:
-        futs = {ex.submit(run_one, c, c.timeout or timeout, extra_path): i
-                for i, c in enumerate(conds)}
+        futs = {ex.submit(job, g): i for i, g in enumerate(groups)}
         for fu in cf.as_completed(futs):
             i = futs[fu]
+            g = groups[i]
             try:
                 out[i] = fu.result()
             except Exception as e:  # noqa: BLE001
-                out[i] = Verdict(conds[i].name, "error", f"{type(e).__name__}: {e}", twin=conds[i].twin)
+                mk = lambda c: Verdict(c.name, "error", f"{type(e).__name__}: {e}", twin=c.twin)  # noqa: E731
+                out[i] = mk(g) if isinstance(g, Cond) else [mk(c) for c in g]
             if progress:
-                progress(conds[i], out[i])
+                for c, v in ([(g, out[i])] if isinstance(g, Cond) else zip(g, out[i])):
+                    progress(c, v)
     return out
 
 
